@@ -88,6 +88,11 @@ func (e *Env) enterLoop(fr *Frame, st *State, b, prev *ssa.BasicBlock, l *loop) 
 		}
 		// clauses that must hold whenever an iteration completes and the loop continues
 		for _, cl := range conts {
+			if fr.depth > 0 {
+				// the clause is proved where the function is verified on its own; inside a caller its call-log
+				// vocabulary (ncalls / callarg of the callee's own calls) has no meaning
+				break
+			}
 			g := e.evalInvariant(st, fr, ct, cl)
 			e.oblige(st, "loop-continue", fmt.Sprintf("loop%d:%s", l.ordinal, cl.Label), g, cl.Text, b.Instrs[0].Pos())
 		}
@@ -208,8 +213,12 @@ func (e *Env) havocLoop(fr *Frame, st *State, l *loop, hdr *ssa.BasicBlock) {
 				}
 				hasCall = true
 				for _, a := range c.Args {
-					if v, ok := fr.regs[a]; ok {
-						e.collectHavoc(st, v, havocCells, 0)
+					// an argument computed inside the loop (interface conversion, field / element address, slice of
+					// a local array) has no value yet at the header: follow it back to the value it is built from
+					for _, root := range argRoots(a) {
+						if v, ok := fr.regs[root]; ok {
+							e.collectHavoc(st, v, havocCells, 0)
+						}
 					}
 				}
 				if !c.IsInvoke() {
@@ -368,6 +377,38 @@ func (e *Env) collectHavoc(st *State, v Val, cells map[int]bool, d int) {
 }
 
 // baseCell finds the cell an address expression is rooted in.
+// argRoots: the values a call argument is derived from by conversions and address computations.
+func argRoots(a ssa.Value) []ssa.Value {
+	out := []ssa.Value{a}
+	for i := 0; i < 20; i++ {
+		switch x := a.(type) {
+		case *ssa.MakeInterface:
+			a = x.X
+		case *ssa.ChangeInterface:
+			a = x.X
+		case *ssa.ChangeType:
+			a = x.X
+		case *ssa.FieldAddr:
+			a = x.X
+		case *ssa.IndexAddr:
+			a = x.X
+		case *ssa.Slice:
+			a = x.X
+		case *ssa.Phi:
+			for _, ed := range x.Edges {
+				if ed != x {
+					out = append(out, ed)
+				}
+			}
+			return out
+		default:
+			return out
+		}
+		out = append(out, a)
+	}
+	return out
+}
+
 func (e *Env) baseCell(fr *Frame, a ssa.Value) (int, bool) {
 	for i := 0; i < 20; i++ {
 		switch x := a.(type) {
@@ -475,6 +516,15 @@ func (e *Env) applyForKey(fr *Frame, st *State, ct *Contract, fk *ForKey) {
 				if sub, ok2 := segsSuffix(segs, pl); ok2 {
 					rel = sub
 				}
+			}
+		}
+		if len(nit.Prefix) > 0 {
+			// a prefix iterator only yields keys that have its prefix: a consequence of that fact is assumed
+			// (when the segment algebra cannot decide the relation nothing is assumed, which is weaker and sound)
+			if f, hyps, ok := e.segsHasPrefixH(segs, nit.Prefix); ok {
+				st.assume(tImplies(tAnd(hyps...), f))
+			} else {
+				e.notes["forkey: relation between the key family and the iterator prefix not decided by the segment algebra; nothing assumed"]++
 			}
 		}
 		nit.Key = e.segsTerm(rel)
